@@ -111,4 +111,17 @@ def inviteGuards (i : InviteIn) : Bool :=
   && i.senderDomain.isSome && i.verify == .good              -- which the sender's server has validly signed
   && !((match i.knownRoom with | .ans true => true | _ => false) && i.curMembership == some b!"join")  -- target not already joined
 
+/-! ### HandleInviteV3
+
+  The pseudo-ID variant is handed a PROTO event by the requesting server and signs the event it builds from it with the
+  invited user's room key.  There is no signature to verify and no event ID yet; what remains of the property's clause
+  for invites: it is an invite (an `m.room.member` event with membership `invite`), its room matches the request, and the
+  target is not already joined.  (Until round 4 no guard predicate existed for this handler — "C15 speaks of HandleInvite" —
+  although the property's anchors name HandleInviteV3; the handler signed any proto event.) -/
+
+def inviteV3Guards (i : InviteV3In) : Bool :=
+  i.protoType == b!"m.room.member" && i.protoMembership == some b!"invite"   -- it is an invite
+  && i.protoRoomID == i.common.roomID                                          -- whose room matches the request
+  && !((match i.common.knownRoom with | .ans true => true | _ => false) && i.common.curMembership == some b!"join")  -- target not already joined
+
 end V.Handshake.Spec
